@@ -503,9 +503,20 @@ class RawAlgorithmsMixIn:
                 return cls._square(x_data, out=y_data)
 
             elif r >= 3:
-                y_data[...] = x_data[...]
-                for nr in range(r-1):
-                    cls._mul(x_data, y_data, y_data)
+                # square and multiply: O(log r) products (x**1e9 must not take 1e9 of them)
+                base = numpy.empty_like(y_data)
+                base[...] = x_data[...]
+                n, first = int(r), True
+                while n:
+                    if n & 1:
+                        if first:
+                            y_data[...] = base
+                            first = False
+                        else:
+                            cls._mul(y_data, base, y_data)
+                    n >>= 1
+                    if n:
+                        cls._mul(base, base, base)
                 return
 
             else:
